@@ -269,7 +269,20 @@ func genBlock(r *hx.Rand, a *asm, w *world, self int, depthBudget int) {
 		}
 		a.pushU(1).op(0x90, 0x03).op(0x80).pushLabel(top).op(0x57).op(0x50) // 1 SWAP1 SUB DUP1 top JUMPI POP
 	case k < 58: // unconditional jump, sometimes to a bad place
-		switch r.Intn(6) {
+		switch r.Intn(8) {
+		case 6, 7: // jump to a 0x5b inside the data of PUSHn (invalid), or to the JUMPDEST right behind the data (valid)
+			n := []int{1, 2, 3, 7, 8, 9, 15, 16, 17, 24, 31, 32}[r.Intn(12)]
+			data := make([]byte, n)
+			for i := range data {
+				data[i] = 0x5b
+			}
+			at := len(a.b)
+			target := at + 4 + 1 + r.Intn(n) // PUSH2 xx xx JUMP | PUSHn data...
+			if r.Bool() {
+				target = at + 4 + 1 + n + 1 // the JUMPDEST after POP
+			}
+			a.pushN(2, big.NewInt(int64(target))).op(0x56)
+			a.op(byte(0x5f + n)).op(data...).op(0x50, 0x5b)
 		case 0:
 			a.push(boundaryWord(r)).op(0x56)
 		case 1: // into push data
